@@ -201,7 +201,7 @@ pub fn drive(args: &[String]) {
             };
             let record = n <= 120 || i < 40 || i % 13 == 0 || i + 1 == n;
             steps.push(json!({"obj": "a", "op": {"name":"add","e": e.max(1).min(ne), "skip": !record}}));
-            if rng.below(500) == 0 {
+            if rng.below(if n <= 150 { 40 } else { 500 }) == 0 {
                 steps.push(json!({"obj": "a", "op": {"name":"clear"}}));
             }
         }
